@@ -49,6 +49,12 @@ def rule_faults():
     mut("undefined-macro-operand", lambda d: d["pattern"].__setitem__(0, {"push": ["@nope"]}))
     mut("undefined-macro-key", lambda d: d["pattern"].__setitem__(0, {"@nope": ["rbp"]}))
     mut("undefined-macro-key-times", lambda d: d["pattern"].__setitem__(0, {"@nope": {"times": 1}}))
+    # an undefined macro reached only through the body of another macro (as item, operand, key, inside a name)
+    mut("undefined-macro-in-body-item", lambda d: d["macros"].__setitem__(0, {"name": "@m", "pattern": ["@nope"]}))
+    mut("undefined-macro-in-body-operand", lambda d: d["macros"].__setitem__(0, {"name": "@m", "pattern": [{"mov": ["@nope"]}]}))
+    mut("undefined-macro-in-body-key", lambda d: d["macros"].__setitem__(0, {"name": "@m", "pattern": [{"@nope": ["rsp"]}]}))
+    mut("undefined-macro-in-body-of-last-of-two", lambda d: d.__setitem__("macros", [
+        {"name": "@unused", "pattern": "nop"}, {"name": "@m", "pattern": [{"mov": ["@nope", "rbp"]}]}]))
     mut("macro-name-without-@", lambda d: d["macros"].append({"name": "plain", "pattern": "x"}))
     mut("macro-without-pattern", lambda d: d["macros"].__setitem__(0, {"name": "@m"}))
     mut("empty-dict-item", lambda d: d["pattern"].append({}))
